@@ -31,6 +31,11 @@ STRESS = [
     ('data', 'DATA 1, , "", "a,b", x y ,\nl1: DATA\nl2: DATA "é", ñ, 3.5\n20 DATA ' + ', '.join(str(i) for i in range(60)) + '\nREAD a%\nRESTORE l2\nREAD b$\nPRINT a%; b$\n'),
     ('routines', ''.join('DECLARE SUB s%d (a%%, b$)\n' % i for i in range(8)) + ''.join('s%d %d, "x"\n' % (i, i) for i in range(8)) + 'GOSUB g1: GOSUB g2: GOTO fin\ng1: PRINT 1: RETURN\ng2: PRINT 2: RETURN\nfin: PRINT 3\n' +
      ''.join('SUB s%d (a%%, b$)\nDIM big%d&(20)\nFOR i%% = 1 TO 2\nSELECT CASE a%%\nCASE %d: big%d&(i%%) = a%%\nCASE ELSE\nEND SELECT\nNEXT\nPRINT b$; a%%\nEND SUB\n' % (i, i, i, i) for i in range(8))),
+    ('storage', 'TYPE inner\n a AS INTEGER\n b AS LONG\nEND TYPE\nTYPE outer\n i AS inner\n s AS STRING\n k AS inner\nEND TYPE\n'
+                'DECLARE SUB f (p AS outer, q%(), n%)\nDIM g(1 TO 2, 1 TO 3) AS outer\nDIM SHARED sh(2, 1) AS inner\nDIM SHARED one AS outer\n'
+                'n% = 2\nDIM d(1 TO n%) AS LONG\nDIM v%(4)\nx = 1\ng(2, 3).k.b = 7\nsh(1, 1).a = 3\nf g(1, 1), v%(), n%\nPRINT g(2, 3).k.b; sh(1, 1).a\n'
+                'SUB f (p AS outer, q%(), n%)\n DIM lc(1 TO 2, 1 TO 2, 1 TO 2) AS inner\n STATIC st AS LONG\n DIM lr AS outer\n y$ = "a"\n lc(2, 2, 2).b = n%\n'
+                ' lr.k.a = q%(1)\n st = st + 1\nEND SUB\n'),
     ('errhand', 'ON ERROR GOTO h\nx% = 1 \\ z%\nON ERROR RESUME NEXT\ny% = 1 \\ z%\nON ERROR GOTO 0\nEND\nh: RESUME NEXT\n'),
     ('numbers', 'PRINT 1; 2; -1; -2; 0; 3; 32767; 100000; 2147483647; 1.5; 2.5#; 1E+30; 1D+300; .1; .1#\na! = 0: b# = 1: c& = 2: d% = -2: e! = -1: f# = 2: g& = -1\n'),
 ]
@@ -70,6 +75,74 @@ def enc(kind, v, lits=None):
 
 def b437(s):
     return list(s.encode('cp437', 'replace'))
+
+
+DECL_RE = re.compile(r'^\s+([A-Za-z_][A-Za-z0-9_]*)(\(([^)]*)\))?\s+(\S+)\s*$')
+
+
+def declarations(lst):
+    """the declarations the listing shows: .types, .globals, .routines; and the FRAME operands of each routine"""
+    def section(name):
+        m = re.search(r'^\.' + name + r'\n(.*?)(?=^;;;;|\Z)', lst, re.S | re.M)
+        return m.group(1) if m else ''
+
+    def decl(line):
+        m = DECL_RE.match(line)
+        if not m:
+            return None
+        t, paren, dims = m.group(1), m.group(2), m.group(3)
+        d = {'t': t, 'dims': [], 'dyn': False}
+        if paren is not None:
+            if dims.strip() == '':
+                d['dyn'] = True
+            else:
+                for part in dims.split(','):
+                    lo, hi = part.lower().split(' to ')
+                    d['dims'].append([int(lo), int(hi)])
+        return d
+    types = []
+    cur = None
+    for line in section('types').splitlines():
+        if re.match(r'^[A-Za-z_][A-Za-z0-9_]*:$', line):
+            cur = {'n': line[:-1], 'fields': []}
+            types.append(cur)
+        elif cur is not None and line.strip():
+            m = DECL_RE.match(line)
+            if m:
+                cur['fields'].append(m.group(1))
+    globs = [d for d in (decl(l) for l in section('globals').splitlines()) if d]
+    routines = []
+    cur = None
+    for line in section('routines').splitlines():
+        mm = re.match(r'^([A-Za-z_][A-Za-z0-9_%&!#$]*):$', line)
+        if mm:
+            cur = {'n': mm.group(1), 'p': -1, 'v': -1, 'vars': []}
+            routines.append(cur)
+        elif cur is not None:
+            d = decl(line)
+            if d:
+                cur['vars'].append(d)
+    # FRAME operands: the first instruction behind the routine's entry label
+    frames = {}
+    body = lst.split('.code', 1)[1] if '.code' in lst else ''
+    lab = None
+    for line in body.splitlines():
+        s_ = line.strip()
+        mm = re.match(r'^_(?:sub|func)_(\S+):$', s_)
+        if mm:
+            lab = mm.group(1)
+            continue
+        if lab is not None and s_.startswith('frame'):
+            a, b = s_.split(None, 1)[1].split(',')
+            frames[lab] = (int(a), int(b))
+            lab = None
+        elif s_ and not s_.endswith(':'):
+            lab = None
+    for r_ in routines:
+        key = r_['n'] if r_['n'] != '_main' else '_main'
+        if key in frames:
+            r_['p'], r_['v'] = frames[key]
+    return {'types': types, 'globals': globs, 'routines': routines}
 
 
 def _job(job):
@@ -177,7 +250,8 @@ def _job(job):
                 e['target'] = -1
         del e['arg']
     return {'name': name, 'cfg': [O, g], 'text': text,
-            'case': {'bytes': list(raw), 'codelen': len(sec.get(4, b'')), 'em': em, 'ld': ld, 'cpu': cpu, 'ds': ds, 'ls': ls}}
+            'case': {'bytes': list(raw), 'codelen': len(sec.get(4, b'')), 'em': em, 'ld': ld, 'cpu': cpu, 'ds': ds, 'ls': ls,
+                     'decl': declarations(lst)}}
 
 
 def run(ctx):
@@ -279,7 +353,7 @@ def _run(ctx, work):
         'binding_demo': bd,
         'samples': [{'program': metas[0]['text'][:500], 'first_instructions': cases[0]['cpu'][:4]}] if cases else [],
     })
-    ctx.assumptions += ['the frame declaration is checked against the variable operands used in the routine, not re-derived from the .routines listing',
+    ctx.assumptions += ['frame declarations and the global area are compared with the storage needed by the declarations the listing shows (.types, .globals, .routines), computed in Module.tla',
                         'the harness re-encodes decoded operand values with struct.pack to compare streams byte-wise']
     if bd['rejected'] != bd['corrupted']:
         raise Machinery('binding demonstration failed: %r' % bd)
